@@ -34,7 +34,7 @@ JOBS = {
     "quick": {"dag5": (5, 3, "dag", 0, ONE), "dag4": (4, 3, "dag", 1, ONE), "dag3": (3, 3, "dag", 2, ONE), "free3": (3, 3, "free", 0, ONE),
               "free3m": (3, 2, "free", 1, ONE), "self2": (2, 3, "self", 1, ONE), "split4": (4, 3, "dag", 0, SPLIT), "split3": (3, 3, "dag", 1, SPLIT),
               "splitfree3": (3, 2, "free", 0, SPLIT), "spell4": (4, 3, "dag", 0, SPELL), "spell3": (3, 3, "dag", 1, SPELL),
-              "del3": (3, 3, "dag", 2, ONE, True)},
+              "del3": (3, 3, "dag", 1, ONE, True)},
     "thorough": {"dag5": (5, 3, "dag", 1, ONE), "dag4": (4, 3, "dag", 2, ONE), "free3": (3, 3, "free", 1, ONE), "free4": (4, 2, "free", 0, ONE),
                  "self3": (3, 2, "self", 1, ONE), "split4": (4, 3, "dag", 1, SPLIT), "splitfree3": (3, 2, "free", 1, SPLIT),
                  "spell4": (4, 3, "dag", 1, SPELL), "del4": (4, 3, "dag", 1, ONE, True)},
